@@ -21,9 +21,10 @@ static const uint8_t CANARY = 0xC5;
 
 struct Guarded {   // [guard page][... dataset bytes ending exactly at a page boundary][guard page]
 	uint8_t* base; size_t total; uint8_t* mem;
-	Guarded() {
+	explicit Guarded(bool shared = false) {
 		size_t body = (randomx::DatasetSize + 4095) & ~(size_t)4095; total = body + 8192;
-		base = map_bytes(total); mprotect(base, 4096, PROT_NONE); mprotect(base + 4096 + body, 4096, PROT_NONE);
+		if (shared) { base = (uint8_t*)mmap(nullptr, total, PROT_READ | PROT_WRITE, MAP_SHARED | MAP_ANONYMOUS | MAP_NORESERVE, -1, 0); if (base == MAP_FAILED) { perror("mmap"); exit(2); } }
+		else base = map_bytes(total); mprotect(base, 4096, PROT_NONE); mprotect(base + 4096 + body, 4096, PROT_NONE);
 		mem = base + 4096 + (body - randomx::DatasetSize);
 	}
 	~Guarded() { munmap(base, total); }
@@ -98,7 +99,10 @@ int main(int argc, char** argv) {
 		if (k == "shape") d = shape_case(g, (int)r.at("which").num(), (uint64_t)r.at("start").num(), (uint64_t)r.at("count").num());
 		else if (k == "partition") { std::vector<int> perm; for (auto& x : r.at("perm").a) perm.push_back((int)x.num()); d = partition_case(g, (int)r.at("which").num(), (uint64_t)r.at("base").num(), (unsigned)r.at("mask").num(), perm, R); }
 		else if (k == "item") { uint64_t i = (uint64_t)r.at("index").num(); uint8_t a[64], b[64], c[64]; ref_item(0, i, a); g_sc.item(i, b); randomx_dataset ds; ds.memory = g.mem; ds.dealloc = nullptr; uint64_t s = i & ~3ull; if (s + 4 > N) s = N - 4; randomx_init_dataset(&ds, g_cache[(int)r.at("which").num()], s, 4); memcpy(c, g.mem + 64 * i, 64); d = memcmp(a, b, 64) ? "light item differs from the specification" : memcmp(a, c, 64) ? "dataset item differs from the light item" : ""; }
-		else d = "whole-dataset comparison: rerun the check";
+		else {   // whole dataset through both initialisers (a fault here terminates the replay by signal, which counts as reproduced)
+			Guarded g2[2]; for (int which = 0; which < 2; ++which) { randomx_dataset ds; ds.memory = g2[which].mem; ds.dealloc = nullptr; randomx_init_dataset(&ds, g_cache[which], 0, N); }
+			d = memcmp(g2[0].mem, g2[1].mem, randomx::DatasetSize) ? "compiled and interpreted initialisers differ" : "";
+		}
 		printf("replay: %s\n", d.empty() ? "holds" : d.c_str()); return d.empty() ? 0 : 1;
 	}
 
@@ -108,17 +112,24 @@ int main(int argc, char** argv) {
 		bool whole = small || th;
 		std::vector<uint64_t> idx = index_set(th);
 		if (whole) {
-			Guarded g[2];
-			for (int which = 0; which < 2; ++which) {
-				randomx_dataset ds; ds.memory = g[which].mem; ds.dealloc = nullptr;
-				int nt = small ? 1 : 16; std::vector<std::thread> ths; uint64_t per = (N / nt) & ~3ull;
-				for (int t = 0; t < nt; ++t) { uint64_t b = per * t, cnt = t == nt - 1 ? N - b : per; ths.emplace_back([&, b, cnt, which] { randomx_dataset d2 = ds; randomx_init_dataset(&d2, g_cache[which], b, cnt); }); }
-				for (auto& t : ths) t.join();
-				total.n["items_initialised"] += N;
-			}
+			Guarded g[2] = { Guarded(true), Guarded(true) };   // shared mappings: initialised in a forked child so that a fault is a verdict, not a harness crash
+			vf::Result ri = vf::run_shards(args, 1, [&](int) {
+				vf::Result R;
+				vf::set_current(vf::Json::obj().set("kind", "whole").set("finding_key", "c08:whole-crash").dump());
+				for (int which = 0; which < 2; ++which) {
+					randomx_dataset ds; ds.memory = g[which].mem; ds.dealloc = nullptr;
+					int nt = small ? 1 : 16; std::vector<std::thread> ths; uint64_t per = (N / nt) & ~3ull;
+					for (int t = 0; t < nt; ++t) { uint64_t b = per * t, cnt = t == nt - 1 ? N - b : per; ths.emplace_back([&, b, cnt, which] { randomx_dataset d2 = ds; randomx_init_dataset(&d2, g_cache[which], b, cnt); }); }
+					for (auto& t : ths) t.join();
+					R.n["items_initialised"] += N;
+				}
+				return R;
+			}, true, 1800);
+			total.merge(ri);
+			if (ri.viol.empty()) {
 			if (memcmp(g[0].mem, g[1].mem, randomx::DatasetSize)) {
 				uint64_t i = 0; while (!memcmp(g[0].mem + 64 * i, g[1].mem + 64 * i, 64)) ++i;
-				vf::Violation v; v.key = "c08:whole"; v.what = "compiled and interpreted dataset initialisers differ at item " + std::to_string(i); v.replay = vf::Json::obj().set("kind", "item").set("index", (unsigned long long)i).set("which", 1); total.viol.push_back(v);
+				vf::Violation v; v.key = "c08:whole"; v.what = "compiled and interpreted dataset initialisers differ at item " + std::to_string(i); v.replay = vf::Json::obj().set("kind", "whole").set("index", (unsigned long long)i).set("which", 1); total.viol.push_back(v);
 			}
 			total.n["whole_dataset_bytes_compared"] += randomx::DatasetSize;
 			// index set against light items and the specification model, sharded
@@ -133,6 +144,7 @@ int main(int argc, char** argv) {
 				return R;
 			});
 			total.merge(r);
+			}
 		} else {
 			vf::Result r = vf::run_shards(args, 32, [&](int shard) {
 				vf::Result R; Guarded g; randomx_dataset ds; ds.memory = g.mem; ds.dealloc = nullptr;
